@@ -262,12 +262,12 @@ def run(ctx):
     configs = [(c, ti, ri) for c in CLASSES for ti in range(len(TIMEOUTS)) for ri in range(len(REDOS))]
     from vf import fnref
     jobs = [{"kind": "short", "configs": ch} for ch in fnref.chunks(configs, ctx.pick(12, 16))]
-    nrand = ctx.pick(20, 600)
+    nrand = ctx.pick(20, 3000)
     parts = ctx.pick(8, 32)
     active = [c for c in configs if c[0] != "Exchangent"]
     for p in range(parts):
         jobs.append({"kind": "random", "configs": active[p::parts], "n": nrand})
-    ctx.shard(jobs, timeout=ctx.pick(90, 340))
+    ctx.shard(jobs, timeout=ctx.pick(90, 1500))
     ctx.exhaustive = True
     ctx.extra["exhaustive_scope"] = ("all 147 (class, timeout, redo) configurations; for Exchange and Exchanger all "
                                      "schedules of 1..4 advances from {0, 1/4, 1/2, 1}")
